@@ -321,6 +321,8 @@ class Explorer:
             return known
         if r.pos < len(r.prefix):
             b = r.prefix[r.pos][0]
+            if len(r.prefix[r.pos]) > 2 and r.prefix[r.pos][2] != cond.uid:
+                raise Escape('re-execution met a different branch condition at decision %d (nondeterministic harness?)' % r.pos)
             r.trace.append(r.prefix[r.pos])
         else:
             if len(r.trace) >= self.max_depth:
@@ -329,13 +331,13 @@ class Explorer:
             f_ok = self._feasible(X.not_(cond))
             if t_ok and f_ok:
                 b = True
-                r.trace.append((True, False))       # (value, exhausted)
+                r.trace.append((True, False, cond.uid))       # (value, exhausted, condition)
             elif t_ok:
                 b = True
-                r.trace.append((True, True))
+                r.trace.append((True, True, cond.uid))
             elif f_ok:
                 b = False
-                r.trace.append((False, True))
+                r.trace.append((False, True, cond.uid))
             else:
                 raise Infeasible()
         r.pos += 1
@@ -346,6 +348,25 @@ class Explorer:
 
     def assumption_added(self):
         self.run.synced = None
+
+    def pick_int(self, e):
+        """an integer value the term can take on the current path (None if the path condition is not satisfiable / unknown);
+        used to enumerate, by forking, the values of a symbolic integer that reaches a C boundary (index, repeat count)"""
+        r = self.run
+        self._sync()
+        z = r.enc.integer(e)
+        self._sync()
+        self.queries += 1
+        t = time.time()
+        res = str(r.solver.check())
+        self.solver_time += time.time() - t
+        if res != 'sat':
+            return None
+        v = r.solver.model().eval(z, model_completion=True)
+        try:
+            return v.as_long()
+        except Exception:
+            return None
 
     def _sync(self):
         r = self.run
@@ -390,6 +411,8 @@ class Explorer:
     def explore(self):
         prefix = []
         _decide[0] = self.decide
+        from . import proxy as _px
+        _px._pick[0] = self.pick_int
         while True:
             if len(self.paths) >= self.max_paths:
                 self.truncated = True
@@ -403,7 +426,7 @@ class Explorer:
                 tr.pop()
             if not tr:
                 break
-            tr[-1] = (False, True)
+            tr[-1] = (False, True) + tuple(tr[-1][2:])
             prefix = tr
         return self.paths
 
